@@ -163,3 +163,44 @@ def build3(m):
                              '0, len(parse_buffer.items)), 0, len(self.children))', 'C13')],
                    modifies=['self.children', 'G:INLINE_PHASE', 'N:Token.line_number', 'N:Token.children', 'F:Token.line_number'],
                    allow_exc=['CustomTokenError'], prop=['C13', 'C12']))
+
+
+def build4(m):
+    """InlineCode (C11: the code-span hand-over global is consumed and cleared; C09 / C02 / C12: the
+    code span's content is the matched text with line endings turned into spaces FIRST and then one
+    space stripped from both ends when it has both and is not all spaces - CommonMark 6.1 - and the
+    stripped padding is remembered)."""
+    ST = 'mistletoe.span_token'
+    CT = 'mistletoe.core_tokens'
+    MATCH = TRef('Match')
+    m.classes.setdefault('Match', {})
+    m.globals.setdefault('core_tokens._code_matches', TList(MATCH))
+    ns = m.namespaces.setdefault(ST, {})
+    ns['core_tokens'] = ('module', CT)
+    ns['RawText'] = ('class', 'RawText')
+    m.namespaces.setdefault(CT, {})['_code_matches'] = ('global', 'core_tokens._code_matches')
+    m.ufunc('m_group', [MATCH, INT], STR)
+    m.methods[('Match', 'group')] = 'protocol:Match.group'
+    m.add(Contract('protocol:Match.group', [('self', MATCH), ('n', INT, mk_int(0))], returns=STR, trusted=True, pure=True,
+                   ensures=['result == m_group(self, n)'],
+                   note='match protocol: group(n) of a match object (re.Match or core_tokens.MatchObj) as an uninterpreted function'))
+    IC = TRef('InlineCode')
+    RT = TRef('RawTextTok')
+    m.classes['InlineCode'] = {'delimiter': STR, 'padding': STR, 'children': TTuple([RT])}
+    m.class_attrs[('InlineCode', 'parse_group')] = ('const', mk_int(2))
+    m.methods[('InlineCode', 'find')] = ST + ':InlineCode.find'
+    c = m.add(Contract(ST + ':InlineCode.find', [('cls', cls_t('InlineCode')), ('string', STR)], returns=TList(MATCH),
+                       ensures=[('same(result, old(core_tokens._code_matches))', 'C11'),
+                                ('len(core_tokens._code_matches) == 0', 'C11')],
+                       modifies=['G:core_tokens._code_matches'], prop=['C11']))
+    c.is_classmethod = True
+    X = "str_replace_all(m_group(match, 2), '\\n', ' ')"
+    PAD = "(not %s.isspace() and %s.startswith(' ') and %s.endswith(' '))" % (X, X, X)
+    m.ufunc('str_replace_all', [STR, STR, STR], STR)
+    m.methods[('InlineCode', '__init__')] = ST + ':InlineCode.__init__'
+    m.add(Contract(ST + ':InlineCode.__init__', [('self', IC), ('match', MATCH)],
+                   ensures=[('self.delimiter == m_group(match, 1)', 'C09'),
+                            ("self.padding == (' ' if %s else '')" % PAD, ['C09', 'C02']),
+                            ('self.children[0].content == (%s[1:-1] if %s else %s)' % (X, PAD, X), ['C09', 'C02', 'C12'])],
+                   modifies=['self.delimiter', 'self.padding', 'self.children', 'N:RawTextTok.content'],
+                   prop=['C09', 'C02', 'C12']))
